@@ -200,3 +200,68 @@ func c20BlankSameSource(c *Ctx, r *RNG, n int) {
 		res.Case(fmt.Sprint("same|", vals), true, cs)
 	}
 }
+
+// ---------- a Blank that is in use is handed to a second Config ----------
+//
+// The second Config is refused (a Blank serves one Dials) - and that refusal must leave the Blank with the Dials it
+// belongs to: SetSource still reaches the first Dials, and the Blank's Done still lets its monitor exit.
+
+func c20BlankSecondConfig(c *Ctx, r *RNG, n int) {
+	res := c.Res
+	for i := 0; i < n; i++ {
+		a1, a2 := 100+r.Intn(100), 300+r.Intn(100)
+		cs := map[string]any{"stream": "a Blank in use handed to a second Config", "values": []int{a1, a2}}
+		ctx, cancel := context.WithCancel(context.Background())
+		b := &sourcewrap.Blank{}
+		d1, err := dials.Config(ctx, &c20GCfg{A: 1}, b)
+		if err != nil {
+			res.Add(Finding{Kind: "violation", What: "Config with a Blank failed: " + err.Error(), Case: cs})
+			cancel()
+			continue
+		}
+		if r.Bool() {
+			sc, c1 := context.WithTimeout(ctx, 5*time.Second)
+			if err := b.SetSource(sc, c20GStatic{a1}); err != nil {
+				res.Add(Finding{Kind: "violation", What: "SetSource failed: " + err.Error(), Case: cs})
+			}
+			c1()
+		}
+		ctx2, cancel2 := context.WithCancel(context.Background())
+		_, err2 := dials.Config(ctx2, &c20GCfg{A: 2}, b)
+		cancel2()
+		if err2 == nil {
+			res.Add(Finding{Kind: "violation", What: "a second Config accepted a Blank that already serves another Dials", Case: cs})
+		}
+		sc, c1 := context.WithTimeout(ctx, 3*time.Second)
+		err = b.SetSource(sc, c20GStatic{a2})
+		c1()
+		if err != nil {
+			res.Add(Finding{Kind: "violation", What: "after a second Config was refused, SetSource on the Blank no longer reaches its Dials: " + err.Error(), Case: cs})
+		} else if got := d1.View().A; got != a2 {
+			res.Add(Finding{Kind: "violation", What: "after a second Config was refused, SetSource returned nil but the first Dials does not show the value", Case: cs, Expected: a2, Observed: got})
+		}
+		// Done: the only watcher of the first Dials gives up its slot, its monitor exits: registrations fail from then on
+		dctx, dc := context.WithTimeout(ctx, 3*time.Second)
+		b.Done(dctx)
+		dc()
+		exited := false
+		for t0 := time.Now(); time.Since(t0) < 3*time.Second; time.Sleep(2 * time.Millisecond) {
+			rctx, rc := context.WithTimeout(ctx, 200*time.Millisecond)
+			un := d1.RegisterCallback(rctx, dials.CfgSerial[c20GCfg]{}, func(context.Context, *c20GCfg, *c20GCfg) {})
+			rc()
+			if un == nil {
+				exited = true
+				break
+			}
+			uctx, uc := context.WithTimeout(ctx, 200*time.Millisecond)
+			un(uctx)
+			uc()
+		}
+		if !exited {
+			res.Add(Finding{Kind: "violation", What: "after a second Config was refused, the Blank's Done no longer lets the first Dials' monitor exit (registrations still succeed 3 s later)", Case: cs})
+		}
+		cancel()
+		res.Count("blank.second-config")
+		res.Case(fmt.Sprintf("second|%d|%d", a1, a2), true, cs)
+	}
+}
